@@ -5,7 +5,7 @@ import FluentModel.Cache
 payload = `<mode>:<k>:<needs>/<endNeed>;op;op;…`
 * `mode` = `a` (async: `Bundles::format_*` futures over `AsyncCache`) or `s` (sync: `format_*_sync` over `Cache`)
 * `k` = number of consumers (tasks `0 … k-1`), `needs` = `,`-separated `need` of item 0, 1, … (`-` = no items)
-* ops: `start:<c>:<depth>:<api>` (api ∈ v|s|m|n is only the shape of the Rust call), `poll:<c>`, `fire`, `pf` (prefetch)
+* ops: `start:<c>:<depth>:<api>` (api ∈ v|s|m|n|e is only the shape of the Rust call; `e` = a batch key whose message formats with a resolver error), `poll:<c>`, `fire`, `pf` (prefetch)
 
 observation per piece: `hdr` | `s` | `busy` | `idle` | `P#<polls>.<pulls>!<wakes>` |
 `R<item>/<got>#…!…` | `RN/<got>#…!…` | `f#…!…`; `got` and `wakes` are `.`-separated (`-` = empty);
@@ -36,7 +36,7 @@ def parseOp (k : Nat) (op : String) : Option Op :=
   match op.splitOn ":" with
   | ["start", c, d, api] =>
     match c.toNat?, d.toNat? with
-    | some c, some d => if c < k ∧ (api == "v" || api == "s" || api == "m" || api == "n") then some (.start c (max d 1)) else none
+    | some c, some d => if c < k ∧ (api == "v" || api == "s" || api == "m" || api == "n" || api == "e") then some (.start c (max d 1)) else none
     | _, _ => none
   | ["poll", c] =>
     match c.toNat? with
